@@ -7,26 +7,26 @@ TECH = "deterministic simulation with fault injection: seeded search over schedu
 
 CLAIMED = {
  "C01": dict(engine="dirmodel", path="harness/scen/dirmodel.go", design="DESIGN.md section 4 (C01)",
-   text="Seeded exploration of directory histories (1-4 directories incl. missing/repeated, populations of valid/invalid/non-Spec files, 1-8 steps of creates, rewrites, temp+rename replacements, removals, renames, moves, mkdir/rm -r) in manual and automatic refresh mode on the simulated kernel; after every refresh point every query result (ListDevices, GetDevice path/priority/definition, ListVendors, ListClasses, GetVendorSpecs, GetErrors) is compared with an executable reference model of the precedence rule. Exploration is the right level: the space of histories is unbounded and the oracle is exact per run.",
+   text="Seeded exploration of directory histories (0-4 directories incl. missing/repeated/prefix-related, populations of valid/invalid/non-Spec files - in half of the runs all of one kind with two device names, in one run in thirty a crowded directory of 130-250 entries - 1-8 steps of creates, rewrites, temp+rename replacements, removals, renames, moves, mkdir/rm -r) in manual and automatic refresh mode on the simulated kernel; after every refresh point every query result (ListDevices, GetDevice path/priority/definition, ListVendors, ListClasses, GetVendorSpecs, GetErrors) is compared with an executable reference model of the precedence rule. Exploration is the right level: the space of histories is unbounded and the oracle is exact per run.",
    note="Trusted: the simulator (sim/memfs, sim/fsnotify stub, sim/sched), the rewriter, the reference model and the validity-by-construction generator; samples the space."),
  "C13": dict(engine="dirmodel", path="harness/scen/dirmodel.go", design="DESIGN.md section 4 (C13)",
    text="Seeded exploration of fault placements and repairs on the simulated kernel: invalid files of 15 kinds, unreadable files (non-root credential), dangling/looping/directory symlinks, configured directories that are missing, regular files, below a non-directory, unreadable or unsearchable, in every position of a 1-4 entry directory list; in manual mode additionally transient EIO/EMFILE injected into the scanner's own lstat/open/getdents/read calls and a concurrent mutator inside the scan window. After every Refresh(): isolation (every device of a readable valid file in a scannable directory resolves as the model says), reporting (entry for every failing Spec file, none for a healthy one), the Refresh() result, and repair (a clean Refresh clears every entry whose cause is gone).",
    note="Trusted: simulator, model, generator. The relaxation under injected faults is computed from the exact calls the simulator failed (per directory index); fault-free and faulty refreshes are checked separately. Transient faults and the concurrent mutator are manual-mode only (in auto mode an explicit Refresh() does not rescan)."),
  "C16": dict(engine="writeremove", path="harness/scen/c16.go", design="DESIGN.md section 4 (C16)",
-   text="Seeded exploration of configurations (1-4 directories, last one possibly missing with missing parents, pre-existing Specs incl. lower-priority definitions of the same devices and similarly named siblings), names from all four generator functions with hostile transient ids ('/', '..', dots, extensions, blanks, long ids), vendors/classes with dots and .json/.yaml endings, and sequences of WriteSpec/RemoveSpec; the simulated disk records every system call, so confinement ('touches nothing else') is checked on the complete history including effects undone before return. A quarter of the runs inject write faults (ENOSPC/EIO/EDQUOT/EMFILE, partial writes): then only confinement and target-is-old-or-new are required.",
+   text="Seeded exploration of configurations (1-4 directories, last one possibly missing with missing parents, pre-existing Specs incl. lower-priority definitions of the same devices and similarly named siblings), names from all four generator functions with hostile transient ids ('/', '..', dots, extensions, blanks, drawn ids that bring the file name to 200-255 bytes), vendors/classes with dots and .json/.yaml endings, and sequences of WriteSpec/RemoveSpec (a third of them not followed by a refresh, the same Spec written again under the same name, files removed by other processes, a non-empty directory squatting under a name, symlinked pre-existing entries); the simulated disk records every system call, so confinement ('touches nothing else') is checked on the complete history including effects undone before return. A quarter of the runs inject write faults (ENOSPC/EIO/EDQUOT/EMFILE, partial writes): then only confinement and target-is-old-or-new are required.",
    note="Trusted: simulator, model; the expected target path is computed from the property statement (last directory + name, .yaml appended unless the name ends in .json/.yaml)."),
  "C10": dict(engine="publish", path="harness/scen/c10.go", design="DESIGN.md section 4 (C10)",
    text="A complete, enumerated single-fault sweep (18 scenarios x every system call of the writer x kill / every errno of that call / 4 write-offset classes, incl. deferred write-back errors at close) plus seeded search over interleavings of the writer with a plain reader, a manual cache, an auto-refreshed cache and a second writer under 0-2 faults, kills and short writes. The invariant 'every Spec-named entry is exactly a complete previous or complete new Spec' is evaluated by an omniscient observer after every scheduler step (every instant between two system calls), reader observations during the write and a fresh scan after the end are checked too. New content is a strict superset of the old so that a YAML prefix is itself loadable.",
    note="Process-crash atomicity (every completed system call survives); power-loss atomicity is not claimed. Trusted: simulated kernel semantics of open/write/close/renameat2/unlink."),
  "C14": dict(engine="hostnodes", path="harness/scen/c14.go", design="DESIGN.md section 4 (C14)",
-   text="Seeded exploration of histories of the host: device nodes of every type (char, block, fifo, regular file, absent) exist only on the simulated disk (the sandbox cannot mknod), cached Specs carry device-node edits in every specification state, and a run interleaves injections (half repeating an earlier request into an equal OCI spec), Device/Spec.ApplyEdits, host-node changes (renumber, retype, remove, replace), writing a cached Spec back, and refreshes. After every step the JSON image of every cached Spec and device read through the query API is compared with the image taken before the first step; host-derived attributes are compared with the current simulated node; equal requests with no host change must give equal results.",
+   text="Seeded exploration of histories of the host: device nodes of every type (char, block, fifo, regular file, absent) exist only on the simulated disk (the sandbox cannot mknod), cached Specs carry device-node edits in every specification state, and a run interleaves injections (half repeating an earlier request into an equal OCI spec, some into an OCI spec that already received an injection), Device/Spec.ApplyEdits, host-node changes (renumber, retype, remove, replace), writing a cached Spec back, and refreshes. After every step the JSON image of every cached Spec and device read through the query API is compared with the image taken before the first step; host-derived attributes are compared with the current simulated node; equal requests with no host change must give equal results.",
    note="Sequential (one client); manual refresh mode only, because writing a copy of a cached Spec into a watched directory would legitimately change resolution. Trusted: simulated lstat/mknod."),
  "C11": dict(engine="converge", path="harness/scen/c11.go", design="DESIGN.md section 4 (C11)",
-   text="Seeded search over histories x pacings: 1-12 file-system operations of every kind the property lists, executed by 1-2 mutator tasks one system call at a time, interleaved by the seeded scheduler with the library's watcher goroutine, the fsnotify reader (batch reads of the inotify queue, tail coalescing, the lstat-at-delivery rule, watch removal on rmdir) and polling clients, with starvation knobs. Bounded liveness with an exact notion of 'changes have ceased': the simulated world has no timers, so quiescence means nothing can ever happen again; after quiescence, one query round, quiescence, the observed query round must equal (a) a cache freshly built by the real code from the final disk and (b) the reference model.",
-   note="Trusted: the inotify model (sim/memfs events per inotify(7)) and the fsnotify v1.5.1 stub reproduce what the real kernel/library deliver; queue overflow and renaming a configured directory are outside the deciding configuration."),
+   text="Seeded search over histories x pacings: 1-12 file-system operations of every kind the property lists (plus symbolic links; one run in thirty starts with a crowded directory of 150-250 Specs that is removed as a tree, recreated and changed again), executed by 1-2 mutator tasks one system call at a time, interleaved by the seeded scheduler with the library's watcher goroutine, the fsnotify reader (batch reads of the inotify queue, tail coalescing, the lstat-at-delivery rule, watch removal on rmdir) and polling clients, with starvation knobs. Bounded liveness with an exact notion of 'changes have ceased': quiescence means nothing can happen any more (timers, if the code has any, are given 60 s of simulated time per quiescence; a world that never comes to rest is a livelock violation); after quiescence ONE query of a drawn kind (any single kind of query must bring the cache up to date), quiescence, then the observed query round starting with the same kind must equal (a) a cache freshly built by the real code from the final disk and (b) the reference model.",
+   note="Trusted: the inotify model (sim/memfs events per inotify(7)) and the fsnotify v1.5.1 stub reproduce what the real kernel/library deliver; the inotify queue overflow (event loss) is a fault knob; renaming a configured directory and changes made through links that live outside the watched directories are outside the deciding configuration."),
  "C20": dict(engine="reconfigure", path="harness/scen/c20.go", design="DESIGN.md section 4 (C20)",
-   text="Seeded search over option histories (1-6, thorough up to 40 Configure calls: directory lists that overlap, repeat, are disjoint or missing; auto-refresh on/off) on a NewCache instance or the package-level default cache (first touched by Configure, GetDefaultCache or a query), interleaved by the seeded scheduler with a mutator task, a polling client, every stale watcher goroutine an earlier configuration left behind, and windows of descriptor exhaustion around Configure calls (strict: another part of the process takes every freed descriptor; loose: it does not). At quiescence the reconfigured cache is compared with a new cache created with the final options in a second simulated process (devices, definitions, Spec-file errors, directory errors, directory list), resource bounds are asserted on the simulated kernel's own tables (watcher goroutines, inotify instances, poller descriptors, watched inodes), and a probe change in every final directory must be noticed without Refresh() iff auto-refresh is on.",
-   note="One known finding is recorded (scan starved of descriptors while the watcher could be created; known_findings.json). Ordinary file descriptors left open are not asserted (a forgotten Close is reclaimed by the os.File finalizer in real life)."),
+   text="Seeded search over option histories (1-6, thorough up to 40 Configure calls: directory lists that overlap, repeat, are disjoint or missing; auto-refresh on/off) on a NewCache instance or the package-level default cache (first touched by Configure, GetDefaultCache or a query), interleaved by the seeded scheduler with a mutator task, a polling client, every stale watcher goroutine an earlier configuration left behind, and windows of descriptor exhaustion around Configure calls (strict: another part of the process takes every freed descriptor; loose: it does not) or opened at arbitrary system calls by a squeezer task; on the default cache 1-3 Configure calls precede the first use. At quiescence the reconfigured cache is compared with a new cache created with the final options in a second simulated process (devices, definitions, Spec-file errors, directory errors, directory list), what the cache holds on the simulated kernel's own tables (library goroutines, inotify instances, poller descriptors, watches) is compared with the new cache's and must not grow over four more reconfigurations to the same options, a manual cache must not change by itself, and a probe change in every final directory must be noticed without Refresh() iff auto-refresh is on.",
+   note="Two genuine defects were found by this check and are repaired (D9, D13; known_findings.json lists them as fixed, which suppresses nothing). Resource bounds follow the property's wording: no design is prescribed, what the cache holds is compared with what a new cache with the final options holds (constant allowance) and must not grow over further reconfigurations. Ordinary file descriptors left open are not asserted (a forgotten Close is reclaimed by the os.File finalizer in real life)."),
  "C12": dict(engine="concurrent", path="harness/scen/c12.go", design="DESIGN.md section 4 (C12)",
    text="Seeded schedule exploration of 2-4 client tasks running drawn programs over the whole public cache API together with the watcher goroutines (including stale ones), on a build in which the rewriter reports every struct-field, package-variable and map access of pkg/cdi (341 sites) to a vector-clock happens-before race detector (the Go race detector is blind under a cooperative scheduler) and makes accesses preemption points. Four oracles: data races (interleaving-independent), deadlock/panic (exact: quiescence with a task blocked on a lock), one-snapshot (every result equals the resolution of one (configuration, disk state) pair that existed so far, with a file switching atomically between absent/A/B with overlapping devices and different markers), and linearizability of manual-mode histories stamped with scheduler steps against a small model, decided by porcupine.",
    technique="deterministic simulation: seeded schedule search with a vector-clock race detector over rewriter-instrumented accesses, snapshot oracle, porcupine linearizability check",
@@ -76,7 +76,7 @@ man = {
  "setup_cmd": "./check build",
  "hooks": {
    "guard": "none (no hooks in /repo)",
-   "enable": "No source hooks. Each check copies /repo's working tree to a scratch directory and rewrites the copy mechanically (tools/simrewrite: os, path/filepath, x/sys/unix, sync, time imports re-pointed at sim/*; go statements, blocking receives and map ranges routed through the scheduler; fsnotify replaced through a go.mod replace directive).",
+   "enable": "No source hooks. Each check copies /repo's working tree to a scratch directory and rewrites the copy mechanically (tools/simrewrite: os, path/filepath, io/ioutil, x/sys/unix, syscall, sync, sync/atomic, time, math/rand, math/rand/v2, crypto/rand imports re-pointed at sim/*; go statements, every channel operation and select, and map ranges routed through the scheduler; for C12 every field, package-variable and map access instrumented; fsnotify replaced through a go.mod replace directive).",
    "baseline_off_cmd": "/verif/baseline.sh",
    "source_commits": [],
    "add_only": True,
